@@ -24,14 +24,17 @@ class PolyOperands:
 
     mode = "poly"
 
-    def __init__(self, max_terms=4, max_exp=2, kinds="if", max_names=3):
+    def __init__(self, max_terms=4, max_exp=2, kinds="if", max_names=3, sorted_names=False):
         self.max_terms, self.max_exp, self.kinds, self.max_names = max_terms, max_exp, kinds, max_names
+        self.sorted_names = sorted_names
 
     def array(self, draw, shape=None, min_ndim=0, max_ndim=3, names=None, kind=None):
         if shape is None:
             shape = draw(gen.shape_st(max_ndim, min_ndim))
         if names is None:
             names = draw(gen.names_st(max_size=self.max_names))
+            if self.sorted_names:
+                names = sorted(names, key=gen.var_num)
         return draw(gen.poly_desc(names=names, shape=tuple(shape), kind=kind, kinds=self.kinds,
                                   max_terms=self.max_terms, max_exp=self.max_exp, retain=False))
 
